@@ -16,7 +16,7 @@ var (
 func c06Faulted() Profile {
 	return Profile{Name: "visits-after-faults", Exec: OnlySigs(c07Exec(1, 1, false), "visit"),
 		Budget: map[int]int{1: 0, 2: 0, 3: 1}, ShardLevel: 3,
-		Rule: "range visits after a failed file call: the C07 driver (6 initial stores x every single operation x one failing file call at every index, retried or not) followed by Set, Flush, the full read battery (ascending / descending visits with and without values, iterators), Reopen and the battery again; visit oracle only: every visit delivers exactly the model's range in order with the right values"}
+		Rule: "range visits after a failed file call: the C07 driver (7 initial stores x every single operation x one failing file call at every index, retried or not) followed by Set, Flush, the full read battery (ascending / descending visits with and without values, iterators), Reopen and the battery again; visit oracle only: every visit delivers exactly the model's range in order with the right values"}
 }
 
 func c06Profiles(tier string) []Profile {
